@@ -160,7 +160,7 @@ func (w *World) execGateOp(ctx context.Context, toks []string) (bool, error) {
 		// waitget p eN : wait until a Get of eN by p is blocked at the gate
 		p := atoi(toks[1])
 		e := w.entryByName(toks[2])
-		deadline := time.Now().Add(2 * time.Second)
+		deadline := time.Now().Add(150 * time.Millisecond)
 		okw := false
 		for time.Now().Before(deadline) {
 			if w.gates().isWaiting(p, e.GetHash()) {
@@ -183,6 +183,17 @@ func (w *World) execGateOp(ctx context.Context, toks []string) (bool, error) {
 		w.printf("settled %d quiesce=%v\n", p, ok)
 	case "stats":
 		w.printStats(atoi(toks[1]))
+	case "holdhook":
+		w.holdHook(toks[1])
+	case "releasehook":
+		w.releaseHook(toks[1])
+		time.Sleep(time.Millisecond)
+	case "waithook":
+		n := 1
+		if len(toks) > 2 {
+			n = atoi(toks[2])
+		}
+		w.printf("hookwait %s %v\n", toks[1], w.waitHook(toks[1], n))
 	default:
 		return false, nil
 	}
